@@ -398,3 +398,22 @@ Print Assumptions C19_F2_witness_class.
 Print Assumptions C19_nonvacuous.
 Print Assumptions C19_success_example.
 Print Assumptions C19_success_example_state.
+Print Assumptions C19_def_touch_lim.
+Print Assumptions C19_def_withdraw_msgs.
+Print Assumptions C19_def_ugi_tail.
+Print Assumptions C19_def_del_vals.
+Print Assumptions C19_def_withdraw_all.
+Print Assumptions C19_def_pend_total.
+Print Assumptions C19_def_in_denoms.
+Print Assumptions C19_def_index_updated.
+Print Assumptions C19_def_bonded_rewards.
+Print Assumptions C19_def_delegate_amounts.
+Print Assumptions C19_def_root_msg.
+Print Assumptions C19_def_pre_dispatch.
+Print Assumptions C19_def_bank_part.
+Print Assumptions C19_def_RegOk.
+Print Assumptions C19_def_IndexWiring.
+Print Assumptions C19_def_StubsOk.
+Print Assumptions C19_def_IndexE1.
+Print Assumptions C19_def_RewardSolvent.
+Print Assumptions C19_def_HubReady.
